@@ -204,6 +204,28 @@ proof fn lemma_congr(f: spec_fn(int) -> ListItem, g: spec_fn(int) -> ListItem, h
     }
 }
 
+// changing only used_base flags keeps the list
+proof fn lemma_flag_congr(f: spec_fn(int) -> ListItem, g: spec_fn(int) -> ListItem, head: Option<u32>, lo: int, hi: int)
+    requires list_ok(f, head, lo, hi),
+        forall|j: int| lo <= j < hi ==> (#[trigger] g(j)).next == f(j).next && g(j).prev == f(j).prev && g(j).used_index == f(j).used_index,
+    ensures list_ok(g, head, lo, hi),
+{
+    reveal(list_ok);
+    assert forall|j: int| l_vac(g, lo, hi, j) == l_vac(f, lo, hi, j) by { if lo <= j < hi { assert(g(j).used_index == f(j).used_index); } }
+    assert forall|i: int| #[trigger] l_vac(g, lo, hi, i) implies
+        in_vac(g, lo, hi, g(i).next as int) && g(g(i).next as int).prev == i && in_vac(g, lo, hi, g(i).prev as int) && g(g(i).prev as int).next == i by {
+        assert(l_vac(f, lo, hi, i)); assert(g(i).next == f(i).next && g(i).prev == f(i).prev);
+        let n = f(i).next as int; let p = f(i).prev as int;
+        assert(in_vac(f, lo, hi, n) && in_vac(f, lo, hi, p)); assert(g(n).prev == f(n).prev && g(n).used_index == f(n).used_index); assert(g(p).next == f(p).next && g(p).used_index == f(p).used_index);
+    }
+    assert forall|i: int, j: int| #[trigger] l_vac(g, lo, hi, i) && #[trigger] l_vac(g, lo, hi, j) && i < j implies i < g(i).next <= j by {
+        assert(l_vac(f, lo, hi, i) && l_vac(f, lo, hi, j)); assert(g(i).next == f(i).next);
+    }
+    assert forall|i: int| #[trigger] l_vac(g, lo, hi, i) && g(i).next <= i implies head == Some(g(i).next) by {
+        assert(l_vac(f, lo, hi, i)); assert(g(i).next == f(i).next);
+    }
+}
+
 // dropping a vacancy-free prefix of the window
 proof fn lemma_shrink(f: spec_fn(int) -> ListItem, head: Option<u32>, lo: int, lo2: int, hi: int)
     requires list_ok(f, head, lo, hi), lo <= lo2 <= hi, forall|j: int| lo <= j < lo2 ==> !l_vac(f, lo, hi, j),
